@@ -126,18 +126,30 @@ struct Sim {
     /// real invocations, the rest of the window through the library function inside the
     /// contract's frame)
     all_real: bool,
+    /// `max_entry_ttl` of the host (`min_persistent_entry_ttl` = this - 1)
+    max_ttl: u32,
+    /// long-idle mode: the window is sampled, `sticky` ledgers are re-queried for ever
+    long: bool,
+    sticky: Vec<u32>,
 }
+
+/// ledgers per day; `max_entry_ttl` of the long-idle sequences (about one year)
+const DAY: u32 = 17_280;
+const LONG_TTL: u32 = 6_312_000;
 
 impl Sim {
     fn new(kind: Kind, min_temp: u32, start: u32, all_real: bool) -> Sim {
-        let e = new_env(start, min_temp, MAX_TTL);
+        Sim::with_ttl(kind, min_temp, start, all_real, MAX_TTL)
+    }
+    fn with_ttl(kind: Kind, min_temp: u32, start: u32, all_real: bool, max_ttl: u32) -> Sim {
+        let e = new_env(start, min_temp, max_ttl);
         let u = Universe::new(&e, N + 1);
         let c = match kind {
             Kind::Ex => e.register(fv_example::ExampleContract, (u.a(OWNER).clone(),)),
             Kind::Fvb => e.register(fvb_contract::Fvb, ()),
             Kind::Nft => e.register(nft_contract::Nfv, ()),
         };
-        Sim { e, u, c, kind, now: start, start, min_temp, all_real }
+        Sim { e, u, c, kind, now: start, start, min_temp, all_real, max_ttl, long: max_ttl != MAX_TTL, sticky: vec![] }
     }
     fn ad(&self, i: usize) -> Val {
         self.u.a(i).into_val(&self.e)
@@ -145,18 +157,25 @@ impl Sim {
     fn q_u128(&self, f: &str, a: soroban_sdk::Vec<Val>) -> Option<u128> {
         query::<u128>(&self.e, &self.c, f, a)
     }
-    fn bal(&self, i: usize) -> i128 {
+    /// every getter may fail (a vanished storage entry makes the library panic): `None`
+    fn bal_opt(&self, i: usize) -> Option<i128> {
         match self.kind {
-            Kind::Nft => query::<u32>(&self.e, &self.c, "balance", args(&self.e, [self.ad(i)])).unwrap() as i128,
-            _ => query::<i128>(&self.e, &self.c, "balance", args(&self.e, [self.ad(i)])).unwrap(),
+            Kind::Nft => query::<u32>(&self.e, &self.c, "balance", args(&self.e, [self.ad(i)])).map(|x| x as i128),
+            _ => query::<i128>(&self.e, &self.c, "balance", args(&self.e, [self.ad(i)])),
         }
     }
-    fn votes(&self, i: usize) -> u128 {
-        self.q_u128("get_votes", args(&self.e, [self.ad(i)])).unwrap()
+    fn bal(&self, i: usize) -> i128 {
+        self.bal_opt(i).unwrap_or(0)
+    }
+    fn votes(&self, i: usize) -> Option<u128> {
+        self.q_u128("get_votes", args(&self.e, [self.ad(i)]))
+    }
+    fn delegate_opt(&self, i: usize) -> Option<Option<usize>> {
+        let d: Option<Option<Address>> = query(&self.e, &self.c, "get_delegate", args(&self.e, [self.ad(i)]));
+        d.map(|d| d.map(|a| self.u.index_of(&a).unwrap_or(99)))
     }
     fn delegate_of(&self, i: usize) -> Option<usize> {
-        let d: Option<Address> = query(&self.e, &self.c, "get_delegate", args(&self.e, [self.ad(i)])).unwrap();
-        d.map(|a| self.u.index_of(&a).unwrap_or(99))
+        self.delegate_opt(i).unwrap_or(None)
     }
     fn votes_at(&self, i: usize, q: u32) -> Option<u128> {
         self.q_u128("get_votes_at_checkpoint", args(&self.e, [self.ad(i), v(&self.e, q)]))
@@ -177,9 +196,20 @@ impl Sim {
         if self.start >= 1 && self.start - 1 < self.now {
             q.push(self.start - 1);
         }
-        let lo = self.start.max(self.now.saturating_sub(80));
-        for l in lo..self.now {
-            q.push(l);
+        if self.long {
+            // sampled: the first ledgers of the sequence, the remembered ones, the latest ones
+            for l in self.start..self.now.min(self.start + 24) {
+                q.push(l);
+            }
+            q.extend(self.sticky.iter().filter(|l| **l < self.now));
+            for l in self.start.max(self.now.saturating_sub(6))..self.now {
+                q.push(l);
+            }
+        } else {
+            let lo = self.start.max(self.now.saturating_sub(80));
+            for l in lo..self.now {
+                q.push(l);
+            }
         }
         q.sort();
         q.dedup();
@@ -188,17 +218,21 @@ impl Sim {
     fn state(&self, q: &[u32]) -> String {
         let e = &self.e;
         let opt = |x: Option<usize>| x.map(|i| i.to_string()).unwrap_or("x".into());
-        let bals: Vec<i128> = (0..N).map(|i| self.bal(i)).collect();
-        let votes: Vec<u128> = (0..N).map(|i| self.votes(i)).collect();
-        let dels: Vec<String> = (0..N).map(|i| opt(self.delegate_of(i))).collect();
-        let ts = self.q_u128("get_total_supply", args(e, [])).unwrap();
+        // a getter that fails is printed as `E` (the model never prints it: diff + monitor)
+        fn show<T: std::fmt::Display>(x: Option<T>) -> String {
+            x.map(|v| v.to_string()).unwrap_or("E".into())
+        }
+        let bals: Vec<String> = (0..N).map(|i| show(self.bal_opt(i))).collect();
+        let votes: Vec<String> = (0..N).map(|i| show(self.votes(i))).collect();
+        let dels: Vec<String> = (0..N).map(|i| self.delegate_opt(i).map(opt).unwrap_or("E".into())).collect();
+        let ts = show(self.q_u128("get_total_supply", args(e, [])));
         let (units, ncp) = if self.kind == Kind::Ex {
             ("-".to_string(), "-".to_string())
         } else {
-            let un: Vec<u128> = (0..N).map(|i| self.q_u128("voting_units", args(e, [self.ad(i)])).unwrap()).collect();
-            let nc: Vec<u32> =
-                (0..N).map(|i| query::<u32>(e, &self.c, "num_checkpoints", args(e, [self.ad(i)])).unwrap()).collect();
-            (join(&un), join(&nc))
+            let un: Vec<String> = (0..N).map(|i| show(self.q_u128("voting_units", args(e, [self.ad(i)])))).collect();
+            let nc: Vec<String> =
+                (0..N).map(|i| show(query::<u32>(e, &self.c, "num_checkpoints", args(e, [self.ad(i)])))).collect();
+            (un.join(","), nc.join(","))
         };
         let own = if self.kind == Kind::Nft {
             (0..IDS).map(|id| opt(self.owner_of(id))).collect::<Vec<_>>().join(",")
@@ -208,7 +242,7 @@ impl Sim {
         let tsup = if self.kind == Kind::Nft {
             "-".to_string()
         } else {
-            query::<i128>(e, &self.c, "total_supply", args(e, [])).unwrap().to_string()
+            show(query::<i128>(e, &self.c, "total_supply", args(e, [])))
         };
         // the current and future ledgers must be refused
         let mut fut = vec![];
@@ -231,28 +265,35 @@ impl Sim {
             b.extend(q.iter().filter(|l| **l <= self.start + 1 || **l + 2 >= self.now).cloned());
             b
         };
-        let bulk: Vec<(u32, Vec<u128>)> = if self.all_real {
-            vec![]
+        // (a library panic inside the frame, e.g. a vanished checkpoint: fall back to real
+        // invocations for the whole window, which report the failing queries one by one)
+        let bulk: Option<Vec<(u32, Vec<u128>)>> = if self.all_real {
+            None
         } else {
             let addrs: Vec<Address> = (0..N).map(|i| self.u.a(i).clone()).collect();
-            e.as_contract(&self.c, || {
-                q.iter()
-                    .map(|l| {
-                        let mut row: Vec<u128> = addrs.iter().map(|a| lib_votes::get_votes_at_checkpoint(e, a, *l)).collect();
-                        row.push(lib_votes::get_total_supply_at_checkpoint(e, *l));
-                        (*l, row)
-                    })
-                    .collect()
+            catch(|| {
+                e.as_contract(&self.c, || {
+                    q.iter()
+                        .map(|l| {
+                            let mut row: Vec<u128> =
+                                addrs.iter().map(|a| lib_votes::get_votes_at_checkpoint(e, a, *l)).collect();
+                            row.push(lib_votes::get_total_supply_at_checkpoint(e, *l));
+                            (*l, row)
+                        })
+                        .collect()
+                })
             })
         };
+        let all_real = bulk.is_none();
+        let bulk = bulk.unwrap_or_default();
         let mut hist = vec![];
         for (k, l) in q.iter().enumerate() {
-            let real = self.all_real || boundary.contains(l);
+            let real = all_real || boundary.contains(l);
             let row: Vec<String> = if real {
                 let mut r: Vec<String> =
                     (0..N).map(|i| self.votes_at(i, *l).map(|x| x.to_string()).unwrap_or("E".into())).collect();
                 r.push(self.total_at(*l).map(|x| x.to_string()).unwrap_or("E".into()));
-                if !self.all_real {
+                if !all_real {
                     // the entry point and the library function must agree
                     let b: Vec<String> = bulk[k].1.iter().map(|x| x.to_string()).collect();
                     if b != r {
@@ -268,10 +309,10 @@ impl Sim {
         format!(
             "now={} bal={} units={} del={} votes={} ncp={} ts={} tsup={} own={} fut={} hist={}",
             self.now,
-            join(&bals),
+            bals.join(","),
             units,
             dels.join(","),
-            join(&votes),
+            votes.join(","),
             ncp,
             ts,
             tsup,
@@ -311,19 +352,32 @@ impl Sim {
         let signers: Vec<&Address> = auth.iter().map(|&i| self.u.a(i)).collect();
         let r = call(e, &self.c, func, argv, &signers);
         let tag = if r.is_some() { "ok" } else { "err" };
+        if self.long && r.is_some() && self.sticky.len() < 48 && !self.sticky.contains(&self.now) {
+            // a ledger with activity (a checkpoint ledger): remembered and re-queried for ever
+            self.sticky.push(self.now);
+        }
         let st = self.state(&q);
         t.obs(&format!("{} {}", tag, st));
     }
     fn advance(&mut self, t: &mut Trace, n: u32) {
+        if self.long && n > 24 && self.sticky.len() < 90 {
+            // sample the gap: its first ledgers, the middle, its last ledgers
+            let p = self.now;
+            for l in [p, p + 1, p + n / 3, p + n / 2, p + n - 2, p + n - 1] {
+                if !self.sticky.contains(&l) {
+                    self.sticky.push(l);
+                }
+            }
+        }
         self.now += n;
-        set_ledger(&self.e, self.now, self.min_temp, MAX_TTL);
+        set_ledger(&self.e, self.now, self.min_temp, self.max_ttl);
         let q = self.window();
         t.op(&format!("votes advance n={} q={}", n, join(&q)));
         let st = self.state(&q);
         t.obs(&format!("ok {}", st));
     }
     fn label(&self, what: &str) -> String {
-        format!("{} kind={} min_temp={} start={}", what, self.kind.name(), self.min_temp, self.start)
+        format!("{} kind={} min_temp={} start={} max_ttl={}", what, self.kind.name(), self.min_temp, self.start, self.max_ttl)
     }
 }
 
@@ -383,6 +437,8 @@ fn directed(t: &mut Trace) {
         }
         s.advance(t, 1);
     }
+    directed_zero_refund(t);
+    directed_long_idle(t);
     let mut s = Sim::new(Kind::Nft, 1, 100, true);
     t.seq(&s.label("directed nft mint, sequential mint, transfers, approvals, burns, delegation"));
     s.exec(t, "delegate", &[0, 1], 0, 0, 0, &[0]);
@@ -407,6 +463,98 @@ fn directed(t: &mut Trace) {
     s.advance(t, 3);
     s.exec(t, "delegate", &[1, 0], 0, 0, 0, &[1]);
     s.advance(t, 1);
+}
+
+/// accounts whose units drop to zero (the `VotingUnits` entry is removed) and are funded again
+/// later: the delegation must survive, `get_delegate` is observed after every call
+fn directed_zero_refund(t: &mut Trace) {
+    for kind in [Kind::Ex, Kind::Fvb] {
+        let own: Vec<usize> = if kind == Kind::Ex { vec![OWNER] } else { vec![] };
+        let mut s = Sim::new(kind, 16, 3, true);
+        t.seq(&s.label("directed units reach zero and are re-funded, delegation kept"));
+        s.exec(t, "delegate", &[0, 1], 0, 0, 0, &[0]);
+        s.exec(t, "delegate", &[2, 2], 0, 0, 0, &[2]);
+        s.exec(t, "mint", &[0], 500, 0, 0, &own);
+        s.advance(t, 2);
+        s.exec(t, "transfer", &[0, 2], 500, 0, 0, &[0]); // 0 -> zero units
+        s.exec(t, "transfer", &[0, 2], 1, 0, 0, &[0]); // nothing left
+        s.advance(t, 1);
+        s.exec(t, "transfer", &[2, 0], 200, 0, 0, &[2]); // re-funded: votes go to 1 again
+        s.exec(t, "transfer", &[2, 3], 300, 0, 0, &[2]); // 2 -> zero, 3 undelegated
+        s.advance(t, 3);
+        s.exec(t, "mint", &[2], 7, 0, 0, &own); // re-funded by mint
+        s.exec(t, "delegate", &[3, 2], 0, 0, 0, &[3]);
+        s.exec(t, "transfer", &[3, 3], 300, 0, 0, &[3]);
+        s.exec(t, "transfer", &[3, 0], 300, 0, 0, &[3]); // 3 -> zero while delegating
+        s.advance(t, 1);
+        s.exec(t, "delegate", &[3, 3], 0, 0, 0, &[3]); // re-delegate at zero units
+        s.exec(t, "transfer", &[0, 3], 500, 0, 0, &[0]);
+        if kind == Kind::Fvb {
+            s.exec(t, "burn", &[3], 500, 0, 0, &[3]); // zero by burn
+            s.exec(t, "mint", &[3], 40, 0, 0, &[]);
+            s.exec(t, "burn", &[2], 7, 0, 0, &[2]);
+        }
+        s.advance(t, 2);
+    }
+    let mut s = Sim::new(Kind::Nft, 16, 3, true);
+    t.seq(&s.label("directed nft units reach zero and are re-funded, delegation kept"));
+    s.exec(t, "delegate", &[0, 1], 0, 0, 0, &[0]);
+    s.exec(t, "mint", &[0], 0, 4, 0, &[]);
+    s.advance(t, 1);
+    s.exec(t, "transfer", &[0, 2], 0, 4, 0, &[0]); // 0 -> zero
+    s.advance(t, 2);
+    s.exec(t, "transfer", &[2, 0], 0, 4, 0, &[2]); // re-funded
+    s.exec(t, "burn", &[0], 0, 4, 0, &[0]); // zero by burn
+    s.advance(t, 1);
+    s.exec(t, "seq_mint", &[0], 0, 0, 0, &[]);
+    s.advance(t, 1);
+}
+
+/// activity, then 1 day / 31 days / 100 days without touching the contract, old ledgers queried
+/// again after every gap and after further activity
+fn directed_long_idle(t: &mut Trace) {
+    for kind in [Kind::Ex, Kind::Fvb, Kind::Nft] {
+        let own: Vec<usize> = if kind == Kind::Ex { vec![OWNER] } else { vec![] };
+        let nft = kind == Kind::Nft;
+        let mut s = Sim::with_ttl(kind, 16, 100, kind == Kind::Fvb, LONG_TTL);
+        t.seq(&s.label("directed long idle 1 / 31 / 100 days"));
+        let mut next_id = 0u32;
+        let mut fund = |s: &mut Sim, t: &mut Trace, to: usize, amt: i128| {
+            if nft {
+                s.exec(t, "mint", &[to], 0, next_id, 0, &[]);
+                next_id += 1;
+            } else {
+                s.exec(t, "mint", &[to], amt, 0, 0, &own);
+            }
+        };
+        let mv = |s: &mut Sim, t: &mut Trace, f: usize, to: usize, amt: i128, id: u32| {
+            s.exec(t, "transfer", &[f, to], if nft { 0 } else { amt }, if nft { id } else { 0 }, 0, &[f]);
+        };
+        s.exec(t, "delegate", &[0, 1], 0, 0, 0, &[0]);
+        fund(&mut s, t, 0, 1000); // id 0
+        fund(&mut s, t, 2, 300); // id 1
+        s.advance(t, 1);
+        s.exec(t, "delegate", &[2, 2], 0, 0, 0, &[2]);
+        s.advance(t, 2);
+        fund(&mut s, t, 0, 50); // id 2
+        mv(&mut s, t, 0, 3, 400, 0);
+        s.advance(t, 1);
+        s.exec(t, "delegate", &[3, 1], 0, 0, 0, &[3]);
+        s.advance(t, DAY); // one day of silence
+        s.advance(t, 0);
+        mv(&mut s, t, 2, 4, 300, 1); // 2 -> zero units
+        s.exec(t, "delegate", &[4, 0], 0, 0, 0, &[4]);
+        s.advance(t, 31 * DAY); // longer than the 30-day extension of the votes module
+        s.advance(t, 0);
+        mv(&mut s, t, 4, 2, 100, 1); // 2 re-funded: still delegating to itself
+        fund(&mut s, t, 1, 5);
+        s.advance(t, 3);
+        s.advance(t, 100 * DAY);
+        s.advance(t, 0);
+        s.exec(t, "delegate", &[0, 0], 0, 0, 0, &[0]);
+        mv(&mut s, t, 0, 2, 1, 2);
+        s.advance(t, 1);
+    }
 }
 
 // ------------------------------------------------------------------ generators
@@ -454,20 +602,42 @@ fn pick_amount(rng: &mut Rng, bal: i128, cap: i128) -> i128 {
     }
 }
 
-fn random_sequence(t: &mut Trace, rng: &mut Rng, k: u64, seed: u64, kind: Kind, len: u64) {
+/// `long`: a "long idle" sequence on a host with a one-year `max_entry_ttl`: a few ledgers of
+/// activity, then 1 day, 31 days and 100 days without any access to the contract, with more
+/// activity (and the same old ledgers queried again) after each gap
+fn random_sequence(t: &mut Trace, rng: &mut Rng, k: u64, seed: u64, kind: Kind, len: u64, long: bool) {
     let min_temp = if rng.chance(50) { 1 } else { 16 };
     let start = *rng.pick(&[1u32, 2, 3, 100, 5000]);
     let all_real = rng.chance(20);
-    let mut s = Sim::new(kind, min_temp, start, all_real);
-    t.seq(&s.label(&format!("rand k={} seed={}", k, seed)));
+    let mut s = Sim::with_ttl(kind, min_temp, start, all_real, if long { LONG_TTL } else { MAX_TTL });
+    t.seq(&s.label(&format!("{} k={} seed={}", if long { "long-idle" } else { "rand" }, k, seed)));
+    let mut gaps: Vec<(u64, u32)> = if long {
+        let mut g = vec![DAY, 31 * DAY, 100 * DAY];
+        if rng.chance(30) {
+            g.swap(0, 1);
+        }
+        if rng.chance(20) {
+            g[2] = 31 * DAY + rng.below(1000) as u32;
+        }
+        vec![(len / 4, g[0]), (len / 2, g[1]), (3 * len / 4, g[2])]
+    } else {
+        vec![]
+    };
     let p = |rng: &mut Rng| rng.below(N as u64) as usize;
     let own: Vec<usize> = if kind == Kind::Ex { vec![OWNER] } else { vec![] };
     // some sequences move the ledger after almost every op (many checkpoints), others rarely
     let adv_pct = *rng.pick(&[8u64, 20, 45]);
-    let mut budget: u32 = 75; // total ledger movement: the window covers every ledger
+    // total small-step ledger movement: the window covers every ledger (per phase when `long`)
+    let mut budget: u32 = if long { 20 } else { 75 };
     let mut pairs: Vec<(usize, usize)> = vec![]; // (owner, spender/operator) approvals made so far
     let mut tok_appr: Vec<(usize, u32)> = vec![]; // (approved, token id)
-    for _ in 0..len {
+    for step in 0..len {
+        if let Some(pos) = gaps.iter().position(|(at, _)| *at == step) {
+            let (_, n) = gaps.remove(pos);
+            s.advance(t, n);
+            budget = 20;
+            continue;
+        }
         if rng.chance(adv_pct) {
             let n = (*rng.pick(&[0u32, 1, 1, 1, 1, 2, 2, 3, 5, 9])).min(budget);
             budget -= n;
@@ -497,8 +667,8 @@ fn random_sequence(t: &mut Trace, rng: &mut Rng, k: u64, seed: u64, kind: Kind, 
                 1 => s.now.saturating_sub(1),
                 2 => s.now,
                 3 => s.now + 1,
-                4 => s.now + MAX_TTL - 1,
-                5 => s.now + MAX_TTL,
+                4 => s.now + s.max_ttl - 1,
+                5 => s.now + s.max_ttl,
                 _ => s.now + 1 + rng.below(30) as u32,
             };
             let from = if rng.chance(88) { owner.unwrap_or_else(|| p(rng)) } else { p(rng) };
@@ -560,7 +730,7 @@ fn random_sequence(t: &mut Trace, rng: &mut Rng, k: u64, seed: u64, kind: Kind, 
         let holders: Vec<usize> = (0..N).filter(|i| s.bal(*i) > 0).collect();
         let f = if !holders.is_empty() && rng.chance(85) { *rng.pick(&holders) } else { p(rng) };
         let bal = s.bal(f);
-        let allowance = |s: &Sim, o: usize, sp: usize| -> i128 { query(&s.e, &s.c, "allowance", args(&s.e, [s.ad(o), s.ad(sp)])).unwrap() };
+        let allowance = |s: &Sim, o: usize, sp: usize| -> i128 { query(&s.e, &s.c, "allowance", args(&s.e, [s.ad(o), s.ad(sp)])).unwrap_or(0) };
         let spender = |rng: &mut Rng| -> usize {
             let cands: Vec<usize> = pairs.iter().filter(|(o, _)| *o == f).map(|(_, x)| *x).collect();
             if !cands.is_empty() && rng.chance(80) {
@@ -596,7 +766,7 @@ fn random_sequence(t: &mut Trace, rng: &mut Rng, k: u64, seed: u64, kind: Kind, 
                 let lu = match rng.below(8) {
                     0 => s.now.saturating_sub(1),
                     1 => s.now,
-                    2 => s.now + MAX_TTL,
+                    2 => s.now + s.max_ttl,
                     _ => s.now + 1 + rng.below(40) as u32,
                 };
                 let amt = if rng.chance(70) { rng.range(1, 3000) as i128 } else { pick_amount(rng, bal, i128::MAX) };
@@ -625,7 +795,8 @@ fn main() {
     let mut t = Trace::from_args();
     let seed = seed_from_env();
     let thorough = arg_str("--tier").as_deref() == Some("thorough");
-    let nseq = arg_u64("--seqs", if thorough { 400 } else { 70 });
+    let nseq = arg_u64("--seqs", if thorough { 400 } else { 64 });
+    let nlong = arg_u64("--long-seqs", if thorough { 45 } else { 9 });
     let len = arg_u64("--len", 40);
     let mut rng = Rng::new(seed);
     if arg_str("--directed").as_deref() != Some("off") {
@@ -637,7 +808,15 @@ fn main() {
             1 => Kind::Fvb,
             _ => Kind::Nft,
         };
-        random_sequence(&mut t, &mut rng, k, seed, kind, len);
+        random_sequence(&mut t, &mut rng, k, seed, kind, len, false);
+    }
+    for k in 0..nlong {
+        let kind = match k % 3 {
+            0 => Kind::Fvb,
+            1 => Kind::Nft,
+            _ => Kind::Ex,
+        };
+        random_sequence(&mut t, &mut rng, k, seed, kind, len, true);
     }
     t.finish();
 }
